@@ -56,6 +56,13 @@ def offset(text, line, col):
     return sum(len(l) + 1 for l in lines[: line - 1]) + (col - 1)
 
 
+def make_user_class(name):
+    def __init__(self, **kwargs):
+        for k, v in kwargs.items():
+            setattr(self, k, v)
+    return type(name, (object,), {"__init__": __init__})
+
+
 class Built:
     """A metamodel built from an abstract grammar + cfg (kept for many inputs)."""
 
@@ -63,7 +70,12 @@ class Built:
         from textx import metamodel_from_str
         self.g, self.cfg = g, cfg
         self.text = grammar_text or G.render_grammar(g)
-        self.mm = metamodel_from_str(self.text, **mm_kwargs(cfg))
+        kw = mm_kwargs(cfg)
+        if cfg.get("userclasses"):
+            # plain user-supplied classes for every rule with assignments (same semantics prescribed)
+            kw["classes"] = [make_user_class(r["name"]) for r in g["rules"]
+                             if any(e["k"] == "asg" for e in G.walk_all(r["body"]))]
+        self.mm = metamodel_from_str(self.text, **kw)
 
     def run(self, inp):
         from textx.exceptions import TextXSemanticError, TextXSyntaxError
